@@ -164,6 +164,123 @@ pub fn judge(c: &Case, st: &mut Stats) -> Verdict {
     }
 }
 
+/// Several values written one after the other into the SAME writer (a refused value in between must leave it usable).
+#[derive(Clone, Debug)]
+pub struct SeqCase {
+    pub vals: Vec<Val>,
+    pub prefill_len: usize,
+    pub prefill_seed: u32,
+}
+
+impl CaseIo for SeqCase {
+    fn to_json(&self) -> serde_json::Value {
+        json!({"values": self.vals.iter().map(|v| v.to_json()).collect::<Vec<_>>(), "prefill_len": self.prefill_len, "prefill_seed": self.prefill_seed})
+    }
+    fn from_json(v: &serde_json::Value) -> Option<Self> {
+        let vals: Option<Vec<Val>> = v.get("values")?.as_array()?.iter().map(Val::from_json).collect();
+        Some(SeqCase { vals: vals?, prefill_len: v.get("prefill_len")?.as_u64()? as usize, prefill_seed: v.get("prefill_seed")?.as_u64()? as u32 })
+    }
+    fn simpler(&self) -> Vec<Self> {
+        let mut out = Vec::new();
+        for i in 0..self.vals.len() {
+            let mut c = self.clone();
+            c.vals.remove(i);
+            out.push(c);
+            let mut c = self.clone();
+            if bld::shrink_val_pub(&mut c.vals[i]) {
+                out.push(c);
+            }
+        }
+        if self.prefill_len > 0 {
+            out.push(SeqCase { prefill_len: 0, ..self.clone() });
+        }
+        out
+    }
+}
+
+pub fn judge_seq(c: &SeqCase, st: &mut Stats) -> Verdict {
+    st.eval();
+    let entry = "several WriteToHeader::write_to calls on one Writer";
+    let kinds: Vec<String> = c.vals.iter().map(|v| shape(&Case { val: v.clone(), prefill_len: 0, prefill_seed: 0, head: None })).collect();
+    let sh = kinds.join("+");
+    let fail = |kind: &str, exp: String, obs: String| Err(Fail::new(kind, &sh, entry, exp, obs));
+    if c.vals.len() >= 2 {
+        st.nontrivial(c.digest());
+    }
+    if c.vals.iter().any(bld::must_refuse) {
+        st.class("sequence-with-a-refused-value");
+    }
+    st.class("sequence");
+    let datas: Vec<Vec<u8>> = c.vals.iter().map(bld::content).collect();
+    let run = crate::engine::guard(|| {
+        let mut w = Writer::from(fill(c.prefill_seed, c.prefill_len));
+        let mut results = Vec::new();
+        for (v, d) in c.vals.iter().zip(&datas) {
+            results.push(bld::write_val(v, d, &mut w).map_err(|e| format!("{:?}", e.kind())));
+        }
+        (results, w.finish())
+    });
+    let (results, out) = match run {
+        Ok(x) => x,
+        Err(p) => return fail("panic", "returns".into(), format!("panic: {}", p)),
+    };
+    // model: each accepted value appends its encoding; a refused one leaves the writer as it was
+    let mut want = fill(c.prefill_seed, c.prefill_len);
+    let mut open = true; // false once the model cannot tell what the writer holds (a write past the limit failed part-way)
+    for (i, (v, r)) in c.vals.iter().zip(&results).enumerate() {
+        match bld::ref_encoding(v) {
+            None => {
+                if r.is_ok() {
+                    return fail("oversize-not-refused-cleanly", format!("value {}: Err", i), "Ok".into());
+                }
+            }
+            Some(e) => {
+                if want.len() + e.len() <= LIMIT {
+                    if *r != Ok(e.len()) {
+                        return fail("append-in-sequence", format!("value {} of {}: Ok({}) - the writer holds {} bytes, far below its limit", i, c.vals.len(), e.len(), want.len()), format!("{:?}", r));
+                    }
+                    want.extend_from_slice(&e);
+                } else {
+                    // beyond a full-size header the outcome is open
+                    match r {
+                        Ok(n) if *n == e.len() => want.extend_from_slice(&e),
+                        _ => {
+                            open = false;
+                            break;
+                        }
+                    }
+                }
+            }
+        }
+    }
+    if open && out != want {
+        let at = out.iter().zip(want.iter()).position(|(a, b)| a != b).unwrap_or(out.len().min(want.len()));
+        return fail("sequence-contents", format!("prefill ++ the encodings of the accepted values ({} bytes)", want.len()), format!("{} bytes, first difference at {}", out.len(), at));
+    }
+    Ok(())
+}
+
+pub fn gen_seq(t: &mut Tape) -> SeqCase {
+    let n = t.usize_in(2, 5);
+    let mut vals = Vec::new();
+    for _ in 0..n {
+        // an oversize (refused) value one time in six
+        let v = if t.chance(1, 6) {
+            let len = *t.pick(&[65_536usize, 65_537, 70_000]);
+            match t.below(4) {
+                0 => Val::Bytes { len, seed: 1 },
+                1 => Val::Tlv { kind: bld::gen_kind(t), len, seed: 1 },
+                2 => Val::TupleU8 { kind: bld::gen_kind(t), len, seed: 1 },
+                _ => Val::TupleType { ty: t.below(12) as usize, len, seed: 1 },
+            }
+        } else {
+            bld::gen_val(t, 10)
+        };
+        vals.push(v);
+    }
+    SeqCase { vals, prefill_len: if t.coin() { 0 } else { t.usize_in(0, 40) }, prefill_seed: crate::engine::gen_seed(t) }
+}
+
 pub fn gen_case(t: &mut Tape) -> Case {
     let val = bld::gen_val(t, 40);
     let size = bld::ref_size(&val);
@@ -199,6 +316,8 @@ pub fn run(r: &mut Runner) -> &'static str {
         .into();
     let n = r.n(200_000, 4_000_000);
     r.random("c20.values", n, 96, &gen_case, &judge);
+    let n = r.n(60_000, 1_500_000);
+    r.random("c20.sequences", n, 160, &gen_seq, &judge_seq);
     // every integer type at its extremes, every Type code, every TLV kind byte: exhaustive small sweep
     let work = |shard: usize, _n: usize, st: &mut Stats, _stop: &AtomicBool| -> Option<(Case, Fail)> {
         if shard != 0 {
